@@ -97,6 +97,22 @@ def enumerate_cases(tier, scope):
                 for mode in ('include', 'exclude'):
                     for namespace, via in ((None, 'inputs'), ('t.u', 'outputs'), ('t', 'absorb')):
                         yield {'source': SOURCE, 'dest': dests[1], 'mode': mode, 'rules': list(rules), 'namespace': namespace, 'options': {}, 'via': via, 'sep': sep}
+    # the arguments given in their documented order instead of by keyword; '' for "no namespace"; a source port that was
+    # re-filed under another key (ns['new'] = ns.pop('old')) is exposed under the key it has now
+    for size in (1, 2):
+        for rules in itertools.combinations(ALL_PATHS[:8], size):
+            if not _no_ancestors(rules):
+                continue
+            for mode in ('include', 'exclude'):
+                for via in ('inputs', 'outputs', 'absorb'):
+                    yield {'source': SOURCE, 'dest': dests[1], 'mode': mode, 'rules': list(rules), 'namespace': 't', 'options': {}, 'via': via, 'positional': True}
+                    yield {'source': SOURCE, 'dest': dests[1], 'mode': mode, 'rules': list(rules), 'namespace': '', 'options': {}, 'via': via}
+    first = sorted(SOURCE['ports'])[0]
+    for mode, rules in (('none', []), ('include', ['renamed']), ('exclude', ['renamed']), ('include', [sorted(SOURCE['ports'])[-1]])):
+        for di in (0, 1):
+            for namespace in (None, 't'):
+                for via in ('inputs', 'outputs', 'absorb'):
+                    yield {'source': SOURCE, 'dest': dests[di], 'mode': mode, 'rules': rules, 'namespace': namespace, 'options': {}, 'via': via, 'rename_source': [first, 'renamed']}
     yield {'source': SOURCE, 'dest': dests[0], 'mode': 'both', 'rules': ['a'], 'namespace': None, 'options': {}, 'via': 'inputs'}
     yield {'source': SOURCE, 'dest': dests[0], 'mode': 'both', 'rules': ['a'], 'namespace': 't', 'options': {}, 'via': 'absorb'}
     for namespace in (None, 't', 't.u', 'fresh.deep'):
@@ -160,7 +176,8 @@ def _cases(draw, tier):
         'dest': dest,
         'mode': mode,
         'rules': rules,
-        'namespace': draw(st.sampled_from([None, None, 't', 't.u', 'keep'])),
+        'namespace': draw(st.sampled_from([None, None, 't', 't.u', 'keep', ''])),
+        'positional': draw(st.integers(0, 3)) == 0,
         'options': options,
         'via': draw(st.sampled_from(['inputs', 'inputs', 'outputs', 'absorb'])),
         'sep': draw(st.sampled_from([None, None, None, '__', '/'])),
@@ -193,7 +210,9 @@ def _make_process(name, tree, which, expose_from=None, expose_kwargs=None, sep=N
             for path, port in _walk(getattr(spec, which)):
                 if isinstance(port, real.PortNamespace):
                     port.pv_tag = 'tag:' + name + ':' + path
-        if expose_from is not None:
+        if expose_from is not None and isinstance(expose_kwargs, tuple):
+            getattr(spec, 'expose_' + which)(expose_from, *expose_kwargs[1])  # the arguments in their documented order
+        elif expose_from is not None:
             getattr(spec, 'expose_' + which)(expose_from, **expose_kwargs)
 
     body = {'define': classmethod(define)}
@@ -221,13 +240,17 @@ def execute(case):
     source, dest = case['source'], case['dest']
     if io == 'output':
         source, dest = _strip_defaults(source), _strip_defaults(dest)
+    rename = case.get('rename_source')  # [old, new]: a top-level source port that was re-filed under another key
+    if rename:
+        source = copy.deepcopy(source)
+        source['ports'][rename[1]] = source['ports'].pop(rename[0])
     include = case['rules'] if case['mode'] in ('include', 'both') else None
     exclude = case['rules'] if case['mode'] in ('exclude', 'both') else None
     namespace = case['namespace']
     options = case['options']
 
     try:
-        expected = em.describe_model(em.expose(dest, source, namespace, include, exclude, options))
+        expected = em.describe_model(em.expose(dest, source, namespace or None, include, exclude, options))  # ('' is "no namespace" too)
         exp_error = None
     except ValueError as exc:
         expected, exp_error = None, exc
@@ -245,16 +268,25 @@ def execute(case):
     src_ns = dst_ns = None
     try:
         if via == 'absorb':
-            holder_s = _make_process('Src', source, 'inputs', sep=sep)
+            holder_s = _make_process('Src', case['source'], 'inputs', sep=sep)
             holder_d = _make_process('Dst', dest, 'inputs', sep=sep)
             src_ns = holder_s.spec().inputs
             dst_ns = holder_d.spec().inputs
+            if rename:
+                src_ns[rename[1]] = src_ns.pop(rename[0])
             target = dst_ns.create_port_namespace(real_path(namespace)) if namespace else dst_ns
-            target.absorb(src_ns, exclude=real_rules(exclude), include=real_rules(include), namespace_options=_real_options(options))
+            if case.get('positional'):
+                target.absorb(src_ns, real_rules(exclude), real_rules(include), _real_options(options))
+            else:
+                target.absorb(src_ns, exclude=real_rules(exclude), include=real_rules(include), namespace_options=_real_options(options))
         else:
-            src_cls = _make_process('Src', source, via, sep=sep)
+            src_cls = _make_process('Src', case['source'], via, sep=sep)
+            if case.get('positional'):
+                kwargs = ('positional', [kwargs['namespace'], kwargs['exclude'], kwargs['include'], kwargs['namespace_options']])
             dst_cls = _make_process('Dst', dest, via, expose_from=src_cls, expose_kwargs=kwargs, sep=sep)
             src_ns = getattr(src_cls.spec(), via)
+            if rename:
+                src_ns[rename[1]] = src_ns.pop(rename[0])
             dst_ns = getattr(dst_cls.spec(), via)
     except Exception as exc:  # noqa: BLE001
         got_error = exc
@@ -269,7 +301,11 @@ def execute(case):
             pm.build_namespace(spec_obj, io, dest)
             before = em.describe_real(getattr(spec_obj, via), io)
             try:
-                getattr(spec_obj, 'expose_' + via)(_make_process('Src2', source, via, sep=sep), **kwargs)
+                src2 = _make_process('Src2', case['source'], via, sep=sep)
+                if isinstance(kwargs, tuple):
+                    getattr(spec_obj, 'expose_' + via)(src2, *kwargs[1])
+                else:
+                    getattr(spec_obj, 'expose_' + via)(src2, **kwargs)
                 v('invalid-expose-accepted', f'{exp_error} - but the call on a spec object succeeded')
             except ValueError:
                 after = em.describe_real(getattr(spec_obj, via), io)
